@@ -12,6 +12,7 @@ import (
 	"os"
 	"runtime/debug"
 	"strings"
+	"sync"
 )
 
 type symVar struct {
@@ -167,6 +168,86 @@ func EagerIterator(m func(func(interface{}) bool)) (func() (interface{}, bool), 
 			return v, true
 		}, func() {
 		}
+}
+
+// Single-threaded model of sync.Map (the engine does not run sync's
+// initialiser): an insertion-ordered association list per map. Never called
+// natively.
+type syncMapModel struct {
+	keys, vals []any
+}
+
+var syncMaps map[*sync.Map]*syncMapModel
+
+func syncMapOf(m *sync.Map) *syncMapModel {
+	if syncMaps == nil {
+		syncMaps = map[*sync.Map]*syncMapModel{}
+	}
+	mm := syncMaps[m]
+	if mm == nil {
+		mm = &syncMapModel{}
+		syncMaps[m] = mm
+	}
+	return mm
+}
+
+func (mm *syncMapModel) find(key any) int {
+	for i, k := range mm.keys {
+		if k == key {
+			return i
+		}
+	}
+	return -1
+}
+
+func SyncMapLoad(m *sync.Map, key any) (any, bool) {
+	mm := syncMapOf(m)
+	if i := mm.find(key); i >= 0 {
+		return mm.vals[i], true
+	}
+	return nil, false
+}
+
+func SyncMapStore(m *sync.Map, key, value any) {
+	mm := syncMapOf(m)
+	if i := mm.find(key); i >= 0 {
+		mm.vals[i] = value
+		return
+	}
+	mm.keys, mm.vals = append(mm.keys, key), append(mm.vals, value)
+}
+
+func SyncMapLoadOrStore(m *sync.Map, key, value any) (any, bool) {
+	mm := syncMapOf(m)
+	if i := mm.find(key); i >= 0 {
+		return mm.vals[i], true
+	}
+	mm.keys, mm.vals = append(mm.keys, key), append(mm.vals, value)
+	return value, false
+}
+
+func SyncMapLoadAndDelete(m *sync.Map, key any) (any, bool) {
+	mm := syncMapOf(m)
+	if i := mm.find(key); i >= 0 {
+		v := mm.vals[i]
+		mm.keys = append(mm.keys[:i:i], mm.keys[i+1:]...)
+		mm.vals = append(mm.vals[:i:i], mm.vals[i+1:]...)
+		return v, true
+	}
+	return nil, false
+}
+
+func SyncMapDelete(m *sync.Map, key any) { SyncMapLoadAndDelete(m, key) }
+
+func SyncMapRange(m *sync.Map, f func(key, value any) bool) {
+	mm := syncMapOf(m)
+	keys := append([]any{}, mm.keys...)
+	vals := append([]any{}, mm.vals...)
+	for i := range keys {
+		if !f(keys[i], vals[i]) {
+			return
+		}
+	}
 }
 
 // RunReplay is called from the generated test: it loads the case named by
